@@ -1456,6 +1456,9 @@ def _find_helper(
     kwargs['normalized'] = bool(normalize)
 
     forms = lemmatize(form, pos) if lemmatize else {}
+    # a part of speech with an empty set of forms proposes nothing (an
+    # empty forms argument would otherwise mean "any form")
+    forms = {_pos: _forms for _pos, _forms in forms.items() if _forms}
     # if no lemmatizer or word not covered by lemmatizer, back off to
     # the original form and pos
     if not forms:
